@@ -14,7 +14,7 @@ Definition ttrig (tq : option N) (cl tr : bool) : rtrig :=
 Definition classT (c : cfg) : Prop :=
   (forall f, trig_of c f = ttrig (q_time (trig_of c f)) (q_caller (trig_of c f)) (q_trace (trig_of c f))
              /\ q_time (trig_of c f) <> Some MC.NO_TIME)
-  /\ fmode_in c = false /\ 1 <= gdepth c.
+  /\ fmode_in c = false /\ 1 <= gdepth c /\ loc_free_all c.
 
 (* the threshold in force below a call *)
 Definition th_of (c : cfg) (thr : N) (f : N) : N := match q_time (trig_of c f) with Some t => t | None => thr end.
@@ -101,7 +101,7 @@ Section RecT.
            (FrT (q_caller (trig_of c f)) (q_trace (trig_of c f)) false f t 0 ri dp ft :: stk) (ri + 1) ou, true :: hk).
   Proof.
     intros Hl Hd. assert (Hidx : (1024 <=? N.of_nat (length stk))%N = false) by lia.
-    destruct HT as (Htr & Hfm & _). destruct (Htr f) as [Ef _].
+    destruct HT as (Htr & Hfm & _ & _). destruct (Htr f) as [Ef _].
     mstep. rewrite Hidx. cbn. rewrite Ef. cbn. rewrite Hfm. cbn. rewrite Hd. cbn. rewrite ?andb_false_r.
     unfold ft_next. rewrite Ef. cbn. reflexivity.
   Qed.
@@ -207,12 +207,13 @@ Theorem record_equals_replay_time c f :
   Z.of_nat (fheight f) <= gdepth c ->
   rec_then_plain c MC.PG f = plain_then_opt c f.
 Proof.
-  intros HT Hp Hr Hwf Hh Hg. pose proof HT as (Htr & Hfm & Hgd).
+  intros HT Hp Hr Hwf Hh Hg. pose proof HT as (Htr & Hfm & Hgd & Hlf).
   assert (Hns : no_switch_all c) by (intro k; destruct (Htr k) as [E _]; rewrite E; split; reflexivity).
   assert (Huc : unfiltered c).
-  { split; [|split; assumption]. intro k. destruct (Htr k) as [E _]. rewrite E. repeat split; reflexivity. }
+  { split; [|repeat split; try assumption; apply Hlf]. intro k. destruct (Htr k) as [E _]. rewrite E. repeat split; reflexivity. }
   assert (Hup : unfiltered plain).
-  { split; [intro k; repeat split; reflexivity|]. split; [reflexivity|]. intro k. reflexivity. }
+  { split; [intro k; repeat split; reflexivity|]. split; [reflexivity|]. split; [intro k; reflexivity|].
+    split; [intro; reflexivity|reflexivity]. }
   unfold rec_then_plain, plain_then_opt.
   rewrite (record_is_pruned_T c f HT Hwf Hh Hg).
   set (p := flat_map (tprune c (threshold c)) f).
@@ -245,9 +246,10 @@ Example hyps_classT : classT c_exT /\ wfT_forest c_exT f_exT
      = [(false, 0%N); (false, 2%N); (true, 2%N); (true, 0%N)].
 Proof.
   split; [|split].
-  - unfold classT, c_exT, mkcfg. cbn [trig_of fmode_in gdepth]. split; [|split; [reflexivity|lia]].
+  - unfold classT, c_exT, mkcfg, mkcfgL, loc_free_all. cbn [trig_of fmode_in gdepth loc_of lmode_in].
+    split; [|repeat split; try reflexivity; lia].
     apply assoc_classT. repeat constructor; discriminate.
-  - unfold wfT_forest, c_exT, f_exT, mkcfg. cbn [threshold]. repeat constructor; cbn; unfold two64; try lia.
+  - unfold wfT_forest, c_exT, f_exT, mkcfg, mkcfgL. cbn [threshold]. repeat constructor; cbn; unfold two64; try lia.
     all: vm_compute; congruence.
   - vm_compute. reflexivity.
 Qed.
